@@ -35,6 +35,7 @@
 #endif
 
 #include "abtu.h"
+#include "abti_verif.h"
 #include "abti_error.h"
 #include "abti_valgrind.h"
 
